@@ -35,7 +35,7 @@ REACHABLE_RAISES = {
 }
 
 
-LATER_RULES = " Later rules: (R4.i) keyless orderings of tuples that can hold None; (R4.j) operations on other modules for import tracing sit in handlers; (R4.k) constant-index access to regex match lists; (R4.l) contradiction rule for snippet parses; (R4.m) validity oracles are total (SyntaxError, ValueError, RecursionError, MemoryError); (R4.n) program text handed to sympy's parser is fenced for Exception; (R4.o) loosely annotated options are normalised before set algebra; (R4.p) = C17 R17.9; (R4.q) constant-index access to possibly-empty list fields is justified by path facts, the selecting template (sa/shapes.py) or the grammar, three-valued; (R4.r) contradiction rule for computed indexes; (R4.s) operator fields of constructed nodes have the right category; (R4.t) unbound set methods are not applied to frozensets; (R4.u) no call on the tracing path executes code of the analysed project (find_spec of dotted names, import_module outside the standard library); (R4.v) format_code is fenced against the depth of the syntax tree (RecursionError hands the input back); (R4.w) a cut byte string is decoded with an errors policy that cannot raise; (R4.x) of several substitutions with the same ambiguous repeated group the run limiter comes first (backtracking cost)."
+LATER_RULES = " Later rules: (R4.i) keyless orderings of tuples that can hold None; (R4.j) operations on other modules for import tracing sit in handlers; (R4.k) constant-index access to regex match lists; (R4.l) contradiction rule for snippet parses; (R4.m) validity oracles are total (SyntaxError, ValueError, RecursionError, MemoryError); (R4.n) program text handed to sympy's parser is fenced for Exception; (R4.o) loosely annotated options are normalised before set algebra; (R4.p) = C17 R17.9; (R4.q) constant-index access to possibly-empty list fields is justified by path facts, the selecting template (sa/shapes.py) or the grammar, three-valued; (R4.r) contradiction rule for computed indexes; (R4.s) operator fields of constructed nodes have the right category; (R4.t) unbound set methods are not applied to frozensets; (R4.u) no call on the tracing path executes code of the analysed project (find_spec of dotted names, import_module outside the standard library); (R4.v) format_code is fenced against the depth of the syntax tree (RecursionError hands the input back); (R4.w) a cut byte string is decoded with an errors policy that cannot raise; (R4.y) no pattern applied to program text has an ambiguous alternative under a star (regex AST); (R4.x) of several substitutions with the same ambiguous repeated group the run limiter comes first (backtracking cost)."
 
 
 def check(prog: Program, tier: str) -> Result:
@@ -80,6 +80,7 @@ def check(prog: Program, tier: str) -> Result:
     _r4_v(prog, res)
     _r4_w(prog, res)
     _r4_x(prog, res)
+    _r4_y(prog, res)
     _r4_k(prog, res)
     _r4_l(prog, res)
     _r4_m(prog, res)
@@ -95,7 +96,7 @@ def check(prog: Program, tier: str) -> Result:
     _tmp = Result("C17", "", "")
     _c17._r17_9(prog, _tmp)
     res.adopt(_tmp, {"R17.9"}, "R4.p", "an unpinned constant can be a str or None: the operation raises TypeError out of the rule and out of format_code")
-    res.floors.update({"R4.x": 1, "R4.w": 1, "R4.v": 1, "R4.u": 2, "R4.t": 1, "R4.s": 20, "R4.r": 1, "R4.q": 30, "R4.p": 3, "R4.o": 2, "R4.n": 2, "R4.m": 2, "R4.a": 25, "R4.b": 200, "R4.c": 4, "R4.d": 18, "R4.e": 8, "R4.f": 40, "R4.h": 2, "R4.i": 2, "R4.j": 5, "R4.k": 1})
+    res.floors.update({"R4.y": 5, "R4.x": 1, "R4.w": 1, "R4.v": 1, "R4.u": 2, "R4.t": 1, "R4.s": 20, "R4.r": 1, "R4.q": 30, "R4.p": 3, "R4.o": 2, "R4.n": 2, "R4.m": 2, "R4.a": 25, "R4.b": 200, "R4.c": 4, "R4.d": 18, "R4.e": 8, "R4.f": 40, "R4.h": 2, "R4.i": 2, "R4.j": 5, "R4.k": 1})
     return res
 
 
@@ -1551,6 +1552,150 @@ def _r4_g(prog: Program, res: Result) -> None:
     res.ok("R4.g", "pyrefact/", "package", "escape triage", f"{listed} explicit raise/assert statements are not caught locally (advisory list: feasibility of a raise is not a static fact)", trivial=True)
 
 
+# ------------------------------------------------------------------------------------------------ R4.y
+def _r4_y(prog: Program, res: Result) -> None:
+    """Ambiguity under a star.  `(?:A|B)*` with an alternative that ENDS in an unbounded repeat of a class which can also match the first
+    character of some alternative (`#[^\\n]*` next to `[\\s(]`: the blank after a `#` is the comment's or the next round's) has
+    exponentially many ways to split a run; when the rest of the pattern then fails (`\\Z`, a literal), the matcher tries them all.
+    Decided on the regex AST for every constant pattern that is applied to program text (the subject is the function's text
+    parameter or a slice of it).  An alternative that must consume up to a delimiter (`#[^\\n]*\\n`) is unambiguous.  (R4.x is the
+    special case `(\\n\\s*){k,}`, where the order of two substitutions saves the day.)"""
+    import re._parser as sre
+    TEXT_PARAMS = {"source", "src", "content", "text", "code", "new_source"}
+
+    def first_chars(seq):
+        """(set of sample chars an item sequence can start with, can_be_empty)"""
+        out = set()
+        for op, av in seq:
+            name = str(op)
+            if name == "LITERAL":
+                out.add(chr(av))
+                return out, False
+            if name == "IN":
+                out |= class_chars(av)
+                return out, False
+            if name == "NOT_LITERAL":
+                out |= set(SAMPLE) - {chr(av)}
+                return out, False
+            if name == "ANY":
+                out |= set(" #(x\t")
+                return out, False
+            if name in ("MAX_REPEAT", "MIN_REPEAT"):
+                lo, _hi, sub = av
+                c, _e = first_chars(list(sub))
+                out |= c
+                if lo > 0:
+                    return out, False
+                continue
+            if name == "SUBPATTERN":
+                c, e = first_chars(list(av[3]))
+                out |= c
+                if not e:
+                    return out, False
+                continue
+            if name == "BRANCH":
+                empty = False
+                for b in av[1]:
+                    c, e = first_chars(list(b))
+                    out |= c
+                    empty = empty or e
+                if not empty:
+                    return out, False
+                continue
+            if name == "AT":
+                continue
+            return out, False
+        return out, True
+
+    SAMPLE = " \t\n#()\\x_1,;"
+
+    def class_chars(items):
+        neg = any(str(o) == "NEGATE" for o, _a in items)
+        pos = set()
+        for o, a in items:
+            n_ = str(o)
+            if n_ == "LITERAL":
+                pos.add(chr(a))
+            elif n_ == "CATEGORY":
+                cat = str(a)
+                for ch in SAMPLE:
+                    if ("SPACE" in cat and "NOT" not in cat and ch.isspace()) or ("NOT_SPACE" in cat and not ch.isspace()) or \
+                            ("WORD" in cat and "NOT" not in cat and (ch.isalnum() or ch == "_")) or ("DIGIT" in cat and "NOT" not in cat and ch.isdigit()):
+                        pos.add(ch)
+            elif n_ == "RANGE":
+                pos |= {ch for ch in SAMPLE if a[0] <= ord(ch) <= a[1]}
+        return (set(SAMPLE) - pos) if neg else pos
+
+    def tail_repeat_class(seq):
+        """chars the trailing unbounded repeat of an alternative can match (None if it does not end in one)"""
+        seq = list(seq)
+        while seq and str(seq[-1][0]) == "SUBPATTERN":
+            seq = list(seq[-1][1][3])
+        if not seq or str(seq[-1][0]) not in ("MAX_REPEAT", "MIN_REPEAT") or seq[-1][1][1] != sre.MAXREPEAT:
+            return None
+        c, _e = first_chars(list(seq[-1][1][2]))
+        return c
+
+    def ambiguous(seq, can_fail_after):
+        out = []
+        seq = list(seq)
+        for i, (op, av) in enumerate(seq):
+            name = str(op)
+            if name in ("MAX_REPEAT", "MIN_REPEAT") and av[1] == sre.MAXREPEAT:
+                body = list(av[2])
+                while len(body) == 1 and str(body[0][0]) == "SUBPATTERN":
+                    body = list(body[0][1][3])
+                alts = [list(b) for b in body[0][1][1]] if len(body) == 1 and str(body[0][0]) == "BRANCH" else [body]
+                starts = set()
+                for a_ in alts:
+                    starts |= first_chars(a_)[0]
+                rest_can_fail = can_fail_after or i + 1 < len(seq)
+                for a_ in alts:
+                    if len(a_) < 2:
+                        continue        # a lone class repeated: `[..]*` is not ambiguous
+                    tc = tail_repeat_class(a_)
+                    if tc and (tc & starts) and rest_can_fail:
+                        out.append(sorted(tc & starts))
+                for a_ in alts:
+                    out += ambiguous(a_, True)
+            elif name == "SUBPATTERN":
+                out += ambiguous(av[3], can_fail_after or i + 1 < len(seq))
+            elif name == "BRANCH":
+                for b in av[1]:
+                    out += ambiguous(b, can_fail_after or i + 1 < len(seq))
+        return out
+    n = 0
+    for fn in prog.funcs.values():
+        for c in prog.calls_in(fn):
+            d = prog.dotted(c.func) or ""
+            if d not in ("re.search", "re.match", "re.sub", "re.findall", "re.finditer", "re.fullmatch", "re.split") or len(c.args) < 2:
+                continue
+            if not (isinstance(c.args[0], ast.Constant) and isinstance(c.args[0].value, str)):
+                continue
+            subject = c.args[2] if d == "re.sub" and len(c.args) > 2 else c.args[1]
+            names = {x.id for x in ast.walk(subject) if isinstance(x, ast.Name)}
+            if not (names & TEXT_PARAMS & set(fn.all_params)) and not (names & {"new_source"}):
+                continue
+            ptxt = c.args[0].value
+            try:
+                amb = ambiguous(list(sre.parse(ptxt)), False)
+            except Exception:
+                continue
+            if not amb and "*" not in ptxt and "+" not in ptxt:
+                continue
+            n += 1
+            # the run-limiter family of R4.x is judged there (order of the substitutions)
+            if amb and fn.node.name == "fix_too_many_blank_lines":
+                res.ok("R4.y", fn.loc(c), fn.fq, f"{short(c, 70)} # backtracking of a pattern applied to program text", "ambiguous group of the blank-line limiter: judged by R4.x (order)", trivial=True)
+                continue
+            res.decide(not amb, "R4.y", fn.loc(c), fn.fq, f"{short(c, 70)} # backtracking of a pattern applied to program text",
+                       "no alternative under a star ends in a repeat that overlaps the start of an alternative" if not amb else
+                       f"under an unbounded repeat an alternative ends in an open repeat whose class also matches the start of an alternative ({amb[0]}): a run of such "
+                       "characters can be split in exponentially many ways, and the pattern can fail behind it - a line of `# # # # ..` in the text and the formatter does not return")
+    if n == 0:
+        res.undecided("R4.y", "pyrefact/", "package", "patterns with repeats applied to program text", "none found")
+
+
 # ------------------------------------------------------------------------------------------------ R4.x
 def _r4_x(prog: Program, res: Result) -> None:
     """Backtracking cost of the blank-line patterns.  `(\\n\\s*){k,}` is ambiguous - `\\s*` also matches the `\\n` that the next round
@@ -1896,6 +2041,7 @@ class ValidPA(PathAnalysis):
 from ..selftest import Variant  # noqa: E402
 
 VARIANTS = [
+    Variant("decorator-search-with-an-open-ended-comment-alternative", "FIRE", "core", "#[^\\n]*\\n)*\\Z\", source[:start_charno])", "#[^\\n]*)*\\Z\", source[:start_charno])", "R4.y"),
     Variant("entry-point-without-depth-fence", "FIRE", "main", "@_hand_back_code_that_is_too_deep\ndef format_code(", "def format_code(", "R4.v"),
     Variant("depth-fence-hands-back-nothing", "FIRE", "main", "            logger.error(\"The code is too deeply nested to be formatted\")\n            return source\n", "            logger.error(\"The code is too deeply nested to be formatted\")\n            raise\n", "R4.v"),
     Variant("depth-fence-catches-every-exception", "SILENT", "main", "        except RecursionError:\n            logger.error(\"The code is too deeply nested", "        except (RecursionError, MemoryError):\n            logger.error(\"The code is too deeply nested", "R4.v"),
